@@ -1,5 +1,6 @@
 import Driver.Util
 import ZixModel.Model.Fs
+import ZixModel.Model.FsLink
 namespace Driver.C15
 open Zix.Fs Zix.Generated
 
@@ -27,6 +28,33 @@ def listing (t : Tree) : String :=
   let items := t.nodes.filterMap (fun (p, k) =>
     match p with
     | _ :: rest@(_ :: _) => some ((if k == .dir then "d:" else "f:") ++ "/".intercalate (rest.map strOfBytes))
+    | _ => none)
+  " ".intercalate (items.mergeSort (fun a b => decide (a ≤ b)))
+
+/-! the same with symbolic links (`l:name>target` setup tokens) -/
+def baseTreeL : Zix.FsLink.Tree := ⟨[([bytesOfStr "S"], .dir), ([bytesOfStr "S", bytesOfStr "w"], .dir)], [bytesOfStr "S", bytesOfStr "w"]⟩
+
+def addSetupL (t : Zix.FsLink.Tree) (tok : String) : Zix.FsLink.Tree :=
+  let body := (tok.drop 2).toString
+  let (p, kind) : String × Option Zix.FsLink.Kind :=
+    if tok.startsWith "d:" then (body, some .dir)
+    else if tok.startsWith "f:" then (body, some .file)
+    else if tok.startsWith "l:" then
+      match body.splitOn ">" with
+      | [n, tgt] => (n, some (.link (if tgt.startsWith "@" then bytesOfStr "/S/w" ++ bytesOfStr (tgt.drop 1).toString else bytesOfStr tgt)))
+      | _ => (body, none)
+    else (body, none)
+  match kind with
+  | none => t
+  | some k =>
+    let cs := (p.splitOn "/").filter (· ≠ "") |>.map bytesOfStr
+    { t with nodes := t.nodes ++ [(t.cwd ++ cs, k)] }
+
+def listingL (t : Zix.FsLink.Tree) : String :=
+  let items := t.nodes.filterMap (fun (p, k) =>
+    match p with
+    | _ :: rest@(_ :: _) =>
+      some ((match k with | .dir => "d:" | .file => "f:" | .link _ => "l:") ++ "/".intercalate (rest.map strOfBytes))
     | _ => none)
   " ".intercalate (items.mergeSort (fun a b => decide (a ≤ b)))
 
@@ -62,6 +90,13 @@ def step (page : Nat) (ws : List String) : Nat × String :=
     | [h] =>
       match expandPath h with
       | some p =>
+        if setupToks.any (·.startsWith "l:") then
+          let t := setupToks.foldl addSetupL baseTreeL
+          let (t1, st) := Zix.FsLink.createDirectories t p
+          let isdir := p ≠ [] ∧ Zix.FsLink.statKind t1 p = some .dir
+          let (_, again) := Zix.FsLink.createDirectories t1 p
+          (page, s!"st={st} isdir={if isdir then 1 else 0} again={again} fds=1 | tree=[{listingL t1}]")
+        else
         let t := setupToks.foldl addSetup baseTree
         let (t1, st) := createDirectories t p
         let isdir := p ≠ [] ∧ statKind t1 p = some .dir
